@@ -51,7 +51,7 @@ class Armorable(metaclass=abc.ABCMeta):
     #  - anything after a '#' that is not escaped or in a character class is ignored, allowing for comments
     __armor_regex = re.compile(r"""# This capture group is optional because it will only be present in signed cleartext messages
                          (^-{5}BEGIN\ PGP\ SIGNED\ MESSAGE-{5}(?:\r?\n)
-                          (Hash:\ (?P<hashes>[A-Za-z0-9\-,]+)(?:\r?\n){2})?
+                          ((?P<hashes>(?:Hash:\ [A-Za-z0-9\-,]+(?:\r?\n))+)(?:\r?\n))?
                           (?P<cleartext>(.*\r?\n)*(.*(?=\r?\n-{5})))(?:\r?\n)
                          )?
                          # armor header line; capture the variable part of the magic text
@@ -146,7 +146,8 @@ class Armorable(metaclass=abc.ABCMeta):
             m['cleartext'] = m['cleartext'][:-1]
 
         if m['hashes'] is not None:
-            m['hashes'] = m['hashes'].split(',')
+            # one or more Hash headers, each a comma-separated list (RFC 4880, section 7)
+            m['hashes'] = [h for line in m['hashes'].splitlines() for h in line[len('Hash: '):].split(',') if h]
 
         if m['headers'] is not None:
             m['headers'] = collections.OrderedDict(re.findall('^(?P<key>.+?): (?P<value>.+?)\r?$\n?', m['headers'], flags=re.MULTILINE))
